@@ -245,6 +245,52 @@ def _shared_manifest(same_dep, declared, swap):
     return ok
 
 
+def _dry_vs_real_dependencies(declared, two):
+    """One codemod needing one or two packages, through the real apply_codemods with a real RequirementsTxtWriter over
+    an in-memory manifest, once with dry_run and once for real: the dry run writes nothing and records the same
+    changesets (path, diff, change lines) and the same dependency-update outcome as the real run."""
+    import codemodder.dependency_management.requirements_txt_writer as rw
+    from codemodder.project_analysis.file_parsers.package_store import FileType, PackageStore
+    from vlib.stubs import FakeFS
+
+    path = "/d/requirements.txt"
+    text = "requests\n" + ("defusedxml==0.7.1\n" if declared else "")
+    needs = [DefusedXML, Security] if two else [DefusedXML]
+
+    class RM:
+        def __init__(self, store):
+            self.package_stores = [store]
+
+    def run(dry):
+        fs = FakeFS({path: text})
+        store = PackageStore(type=FileType.REQ_TXT, file=Path(path), dependencies=set(l for l in text.split("\n") if l), py_versions=[])
+        with NoTracing():
+            ctx = CodemodExecutionContext(Path("/d"), dry, False, None, None, None, [], [], {}, 1)
+        ctx.__dict__["files_to_analyze"] = [Path("/d/x.py")]
+        ctx.repo_manager = RM(store)
+        cm = _Cm(0, [], False, 0)
+
+        def apply(context, cm=cm):
+            fc = FileContext(Path("/d"), Path("/d/x.py"))
+            for dep in needs:
+                fc.dependencies.add(dep)
+            context.process_results(cm.id, iter([fc]))
+
+        cm.apply = apply
+        rw.open = fs.open
+        try:
+            cmod.apply_codemods(ctx, [cm])
+        finally:
+            del rw.open
+        cs = [(c.path, c.diff, [(x.lineNumber, x.description) for x in c.changes]) for c in ctx.get_changesets(cm.id)]
+        upd = ctx._dependency_update_by_codemod.get(cm.id)
+        return fs, cs, (None if upd is None else upd.type)
+
+    fs_d, cs_d, upd_d = run(True)
+    fs_r, cs_r, upd_r = run(False)
+    return fs_d.writes == [] and fs_d.files[path] == text and cs_d == cs_r and upd_d == upd_r
+
+
 SETUP_PY = 'from setuptools import setup\n\nversion = "1"\nsetup(\n    name="x",\n    install_requires=[\n        "requests",\n    ],\n)\n'
 
 
